@@ -625,7 +625,8 @@ def option_events(M, seed):
         add(0, g, {"marker": "*"}, False, "marker:star")
         add(1, g, {"marker": "!"}, False, "marker:bang")
         for lvl, val, vc in ((2, "!!", "double_bang"), (2, "*LK*", "solaris_lock"), (2, "x", "invalid_char"),
-                             (2, "$1$abc", "looks_like_hash"), (2, "", "empty"), (3, "!locked", "bang_text")):
+                             (2, "$1$abc", "looks_like_hash"), (2, "", "empty"), (3, "!locked", "bang_text"),
+                             (2, b"*LK*", "bytes")):
             add(lvl, g, {"marker": val}, False, f"marker:{vc}")
         add(2, g, {"marker": "x"}, True, "marker:invalid_char")
     # ---- generic
